@@ -60,12 +60,22 @@
 (*    (T, P) under different species orders agree to 2 Eps n_tot per       *)
 (*    amount (each is within Eps n_tot of the unique minimiser along every *)
 (*    basis reaction).                                                     *)
-(*  AtomsConserved: 1e-6 of the largest term of the element sum (Dec, one  *)
-(*    Mul and <= 12 Adds per side), or, when an element is present only in *)
-(*    traces next to others (feed 1e-12 beside 2000), 1e-9 of the LARGEST  *)
-(*    element total: the solver closes the linear balances to rounding     *)
-(*    error relative to the size of its variables (observed 2e-17 beside   *)
-(*    4000), not relative to each balance.  FractionsSumToOne 1e-7.        *)
+(*  AtomsConserved, PER ELEMENT and relative to that element's own feed    *)
+(*    total in_e (feed as the user stated it):                             *)
+(*       |out_e - in_e| <= 1e-6 in_e + 1e-13 + 64 ulp(largest term summed) *)
+(*    The middle term is the solver's documented tolerance: SLSQP accepts  *)
+(*    an iterate when the summed violation of the equality constraints is  *)
+(*    below acc = ftol = 1e-14, an ABSOLUTE number of moles (one decade of *)
+(*    head-room for the final step: measured on the unmodified library,    *)
+(*    81 trace-element feeds, amounts 1e-3..1e6 mol: residual of the trace *)
+(*    element <= 1.9e-14 whatever its own total, e.g. 1.85e-14 of 2.3e-13  *)
+(*    mol = 8 % of that element, and <= 1e-6 in_e above 1e-7 mol).  The    *)
+(*    library therefore conserves every element to the solver's absolute   *)
+(*    tolerance, not to a relative one; an element below ~1e-13 mol is     *)
+(*    beyond what this clause can see.  (The former floor "1e-9 of the     *)
+(*    largest element total" is gone: it would have accepted the complete  *)
+(*    loss of a 4e-9 mol element beside 1 mol of carrier.)                 *)
+(*    FractionsSumToOne 1e-7.                                              *)
 (*                                                                         *)
 (* DEGENERATE NETWORKS.  When a proposed integer combination c of the      *)
 (* element balances verifies EqLin!DependentElements (redundant balances)  *)
@@ -90,7 +100,10 @@ BarPerAtm == <<101325, -5>>
 Tau == <<1, -6>>          \* trace threshold (mole fraction)
 Eps == <<1, -2>>          \* NearMinimum displacement (fraction of n_tot)
 KFtol == <<1, -12>>       \* K * ftol = 100 * 1e-14
-AbsFloor == <<1, -9>>     \* AtomsConserved: absolute floor, fraction of the largest element total
+AbsFloor == <<1, -9>>     \* ForcedSmall: "cannot be formed" = below this fraction of the largest element total
+RelAtoms == <<1, -6>>     \* AtomsConserved: relative to the element's own feed total
+SolverAbs == <<1, -13>>   \* AtomsConserved: 10 * ftol, SLSQP's absolute constraint tolerance (acc = ftol = 1e-14)
+Ulp64 == <<142, -16>>     \* 64 * 2^-52: rounding floor of a double-precision sum, per unit of its largest term
 Keep == <<1, -3>>         \* a consumed species must keep this fraction of its amount
 
 Range(s) == {s[i] : i \in 1..Len(s)}
@@ -107,6 +120,13 @@ SumNu(nu) == ISum(nu, Len(nu))
 ElemSumOK(x, E, j, want) ==
    LET terms == [i \in 1..Len(x) |-> Mul(x[i], I(E[i][j]))]
    IN CloseIn(SumSeq(terms), want, Range(terms), 6)
+\* AtomsConserved, judged per element against that element's OWN feed total:
+\*   |out_e - in_e| <= RelAtoms * in_e + SolverAbs + 64 ulp of the largest term of the sum
+ElemConserved(x, E, j, want) ==
+   LET terms == [i \in 1..Len(x) |-> Mul(x[i], I(E[i][j]))]
+       big == DMax(MaxSeq([i \in 1..Len(x) |-> DAbs(terms[i])]), DAbs(want))
+       bound == Add(Add(Mul(RelAtoms, DAbs(want)), SolverAbs), Mul(Ulp64, big))
+   IN Le(DAbs(Sub(SumSeq(terms), want)), bound)
 InitClauses(e) ==
    IF e.raised THEN {"Raises"}
    ELSE (IF IsMatrix(e.E) /\ e.libEint /\ e.libE = e.E THEN {} ELSE {"ElementMatrix"})
@@ -192,9 +212,7 @@ OrderClause(e, cls) ==
 BasicClauses(e) ==
    (IF \A i \in 1..Len(e.n) : e.n[i][1] >= 0 /\ e.frac[i][1] >= 0 THEN {} ELSE {"NonNegative"})
    \cup (IF Close(SumSeq(e.frac), One, 7) THEN {} ELSE {"FractionsSumToOne"})
-   \cup (IF Len(e.n) = Len(st.E) /\ \A j \in 1..NEl(st.E) :
-               \/ ElemSumOK(e.n, st.E, j, st.tot[j])
-               \/ Le(DAbs(Sub(Dot(e.n, ColD(st.E, j)), st.tot[j])), Mul(AbsFloor, MaxSeq(st.tot)))
+   \cup (IF Len(e.n) = Len(st.E) /\ \A j \in 1..NEl(st.E) : ElemConserved(e.n, st.E, j, st.tot[j])
          THEN {} ELSE {"AtomsConserved"})
 EchoClauses(e) ==
    (IF e.echoT = e.T /\ e.echoP = e.P THEN {} ELSE {"ConditionsEchoed"})
